@@ -265,7 +265,9 @@ pub fn check_hashsim(property: &str, tier: &str) -> i32 {
     let seed = verif_seed();
     let thorough = tier == "thorough";
     let par = workers();
-    let boots = if thorough { 8 } else { 2 };
+    // lazily initialised process-wide values (e.g. the ACCEPTED_* union types) take their hash
+    // order from the boot seed: several processes per run
+    let boots = if thorough { 8 } else { 4 };
     let shards = (par / boots).max(1);
     let mut jobs = Vec::new();
     for b in 0..boots {
